@@ -116,6 +116,13 @@ def run(ctx):
             timeout=1500)
     ctx.cov['exhaustive'] = True
     ctx.replay('cases.ndjson', label='gen-native', min_cases=1000, corrupt=corrupt)
+    # the binding self-test again on the new dimensions alone: CONVFMT changed / an entry of the table shadowed
+    for label, key in (('gen-native-convfmt', '"cf":"%.6g"'), ('gen-native-shadow', '"shadow":"none"')):
+        with open(ctx.path(f'cases_{label}.ndjson'), 'w') as f:
+            for line in open(ctx.path('cases.ndjson')):
+                if key not in line and '"called":true' in line:
+                    f.write(line)
+        ctx.selftest(ctx.path(f'cases_{label}.ndjson'), 'C17', corrupt, label)
     ntr = 300 if q else 5000
     ctx.harness(['C17', 'record', '-seed', str(ctx.seed), '-n', str(ntr), '-out', ctx.path('trace.ndjson')])
     rejects = ctx.validate_traces('Trace_Native', 'Trace_Native', 'trace.ndjson', label='trace-native',
